@@ -186,6 +186,9 @@ structure DInv (d : Disk) (A : List Rec) : Prop where
   zclean : ∀ z ∈ d.zombies, z.garbage = false
   pres : Presents d.wmVal (recsOf d.files) A
   zlow : Low d.wmVal (recsOf d.zombies)
+  /-- the same for the watermark a crash may bring back -/
+  presAlt : ∀ w, d.wmAlt = some w → Presents (w.getD 0) (recsOf d.files) A
+  zlowAlt : ∀ w, d.wmAlt = some w → Low (w.getD 0) (recsOf d.zombies)
 
 theorem low_of_mem_recsOf {w : Nat} {zs : List LogFile} (l : Low w (recsOf zs)) (z : LogFile) (hz : z ∈ zs) :
     Low w (recsOfFile z) := by
@@ -213,35 +216,54 @@ theorem foldr_insertFile_inv (w : Nat) (A : List Rec) (zs fs : List LogFile)
 theorem garbageOnlyLast_of_clean (fs : List LogFile) (h : ∀ f ∈ fs, f.garbage = false) : GarbageOnlyLast fs :=
   fun f hf => h f ((List.dropLast_sublist fs).subset hf)
 
-/-- The invariant survives a crash: with any subset of the unlinked logs back, the directory
-still satisfies it (and has no pending unlinks any more). -/
-theorem DInv.resurrect {d : Disk} {A : List Rec} (i : DInv d A) (mask : List Bool) : DInv (d.resurrect mask) A := by
+/-- The invariant survives a crash: with any subset of the unlinked logs back (and an undurable
+watermark rename undone or not), the directory still satisfies it, and nothing is pending any more. -/
+theorem DInv.resurrect {d : Disk} {A : List Rec} (i : DInv d A) (mask : List Bool) (alt : Bool) :
+    DInv (d.resurrect mask alt) A := by
+  -- the watermark the image ends up with, and what is known about it
+  have hw : ∃ w, (d.resurrect mask alt).wm = w ∧ Presents (w.getD 0) (recsOf d.files) A ∧
+      Low (w.getD 0) (recsOf d.zombies) := by
+    cases alt with
+    | false => exact ⟨d.wm, rfl, i.pres, i.zlow⟩
+    | true =>
+      cases ha : d.wmAlt with
+      | none => exact ⟨d.wm, by simp [Disk.resurrect, ha], i.pres, i.zlow⟩
+      | some w => exact ⟨w, by simp [Disk.resurrect, ha], i.presAlt w ha, i.zlowAlt w ha⟩
+  obtain ⟨w, hwm, hp, hl⟩ := hw
+  have hwv : (d.resurrect mask alt).wmVal = w.getD 0 := by unfold Disk.wmVal; rw [hwm]
   by_cases hz : d.zombies = []
-  · have : d.resurrect mask = { d with zombies := [] } := by
+  · have hf : (d.resurrect mask alt).files = d.files := by
       unfold Disk.resurrect
       rw [hz]
       cases mask with
       | nil => simp [pick]
       | cons b m => cases b <;> simp [pick]
-    rw [this]
-    exact ⟨i.asc, i.garb, fun _ => rfl, by simp, i.pres, by simp [recsOf, Low]⟩
+    refine ⟨by rw [hf]; exact i.asc, by rw [hf]; exact i.garb, fun _ => rfl, by simp [Disk.resurrect], ?_, ?_, ?_, ?_⟩
+    · rw [hwv, hf]; exact hp
+    · simp [Disk.resurrect, recsOf, Low]
+    · intro w' hw'; simp [Disk.resurrect] at hw'
+    · intro w' hw'; simp [Disk.resurrect] at hw'
   · have hclean : ∀ f ∈ d.files, f.garbage = false := by
       intro f hf
       cases hg : f.garbage with
       | false => rfl
       | true => exact absurd (i.zgarb ⟨f, hf, hg⟩) hz
-    have hzs : ∀ z ∈ pick mask d.zombies, Low d.wmVal (recsOfFile z) ∧ z.garbage = false := by
+    have hzs : ∀ z ∈ pick mask d.zombies, Low (w.getD 0) (recsOfFile z) ∧ z.garbage = false := by
       intro z hzm
       have := mem_pick mask d.zombies z hzm
-      exact ⟨low_of_mem_recsOf i.zlow z this, i.zclean z this⟩
-    obtain ⟨j1, j2, j3⟩ := foldr_insertFile_inv d.wmVal A (pick mask d.zombies) d.files hzs i.asc i.pres hclean
-    exact ⟨j1, garbageOnlyLast_of_clean _ j3, fun _ => rfl, by simp [Disk.resurrect], j2, by simp [Disk.resurrect, recsOf, Low]⟩
+      exact ⟨low_of_mem_recsOf hl z this, i.zclean z this⟩
+    obtain ⟨j1, j2, j3⟩ := foldr_insertFile_inv (w.getD 0) A (pick mask d.zombies) d.files hzs i.asc hp hclean
+    refine ⟨j1, garbageOnlyLast_of_clean _ j3, fun _ => rfl, by simp [Disk.resurrect], ?_, ?_, ?_, ?_⟩
+    · rw [hwv]; exact j2
+    · simp [Disk.resurrect, recsOf, Low]
+    · intro w' hw'; simp [Disk.resurrect] at hw'
+    · intro w' hw'; simp [Disk.resurrect] at hw'
 
 /-- Every crash image of a directory that satisfies the invariant for `A` reopens without
 error and `LoadAllEntries` yields exactly `A`. -/
-theorem DInv.image_good {d : Disk} {A : List Rec} (i : DInv d A) (mask : List Bool) :
-    ∃ out, recover (d.resurrect mask) = .ok out ∧ LoadSpec out A := by
-  have j := i.resurrect mask
+theorem DInv.image_good {d : Disk} {A : List Rec} (i : DInv d A) (mask : List Bool) (alt : Bool) :
+    ∃ out, recover (d.resurrect mask alt) = .ok out ∧ LoadSpec out A := by
+  have j := i.resurrect mask alt
   exact recover_of_presents _ A j.garb j.pres
 
 end Juno.C14
